@@ -711,6 +711,13 @@ class SymEnum:
     def __format__(self, spec):
         return "<symbolic value>"
 
+    def __add__(self, o):
+        # concatenation/addition needs the concrete values: fork over the feasible ones
+        return self.get() + (o.get() if isinstance(o, SymEnum) else o)
+
+    def __radd__(self, o):
+        return (o.get() if isinstance(o, SymEnum) else o) + self.get()
+
     def __repr__(self):
         return "<SymEnum of %d>" % len(self.vals)
 
